@@ -1,6 +1,6 @@
 (* C10 — Channeled subscribers: same stream, own thread, own backpressure policy.
    Statements only; proofs in ChannelProofs.v, WorldSubs.v, WorldFlush.v. *)
-From RS Require Import Base Channel ChannelProofs Pipeline Script World Hist WorldProofs WorldInv WorldQueue WorldStop WorldSubs WorldFlush.
+From RS Require Import Base Channel ChannelProofs Pipeline Script World Hist WorldProofs WorldInv WorldQueue WorldStop WorldSubs WorldFlush WorldSids WorldForward.
 
 Section C10.
 Context {State : Type}.
@@ -60,6 +60,18 @@ Proof. intros w t sid G. exact (ended_thread_silent cfg w t sid G). Qed.
 
 (* C10_partial: "called on its own thread" holds in the model by construction of step_chan (the
    callback event carries the context XChan sid); engine L and the C10 monitor decide it on the code. *)
+(* "with the blocking policy it receives exactly the sequence a direct subscriber would"
+   (WorldForward.v; programs whose registration calls carry pairwise distinct identifiers, every
+   schedule): while the subscriber has not been released, one entry per snapshot that contains it,
+   in snapshot order - which is what a direct subscriber in its place is called for
+   (C03_stream) - is exactly what its thread has been handed so far, followed by what is still
+   queued for it, followed by what the notification in progress has still to forward *)
+Theorem C10_same_stream : forall reducers mws progs w sid c pc, distinct_regs progs ->
+  reachable cfg reducers mws progs w ->
+  get_chan (w_chans w) sid = Some c -> pol c = Block -> tx_alive c = true ->
+  get_thread (w_threads w) reducer_tid = Some (TReducer pc) ->
+  rev (fowed sid (w_hist w)) = rev (subrecvs sid (w_hist w)) ++ qacts c ++ pendingf sid pc.
+Proof. intros. eapply consumed_is_owed; eauto. Qed.
 End C10.
 
 Print Assumptions C10_stream.
@@ -68,3 +80,4 @@ Print Assumptions C10_newest_kept.
 Print Assumptions C10_flush.
 Print Assumptions C10_joins_wait.
 Print Assumptions C10_silent_after.
+Print Assumptions C10_same_stream.
